@@ -7,9 +7,6 @@ CONSTANTS Kind = "channel"
           HasPub = TRUE
           Slot = 0
           SidOff = 0
-          AsImplemented = FALSE
+          AsImplemented = TRUE
           LibSource = FALSE
 INVARIANT NoClauseFails
-INVARIANT DeliveredIsPrefixOfHanded
-INVARIANT FutureOnce
-INVARIANT NothingRetained
